@@ -5,6 +5,13 @@ import vlib
 HARNESS = "engines/harness"
 
 
+def setup():
+    vlib.cargo_build(HARNESS, "harness-debug", bins=["c19"])
+    vlib.cargo_build(HARNESS, "harness-release", bins=["c19"], release=True)
+    for mode, release in (("staticpie", False), ("static", True), ("dynpie", False)):
+        vlib.build_nolibc("probes/clock_probe", "clock_probe" + ("-rel" if release else ""), mode, release)
+
+
 def run(ck, replay=None):
     quick = ck.tier == "quick"
     dbg = vlib.cargo_build(HARNESS, "harness-debug", bins=["c19"])
@@ -16,6 +23,35 @@ def run(ck, replay=None):
         for i in range(nshard):
             jobs.append(dict(argv=[d + "/c19", "arith", str(ck.seed * 1000 + i), str(budget)], timeout=900))
         jobs.append(dict(argv=[d + "/c19", "clock", str(ck.seed), str(200 if quick else 1500)], timeout=900))
+    # the clock path of no-libc *executables* (vDSO when the `vdso` feature is on) is not in the std harness:
+    # clock_probe brackets every reading with raw CLOCK_MONOTONIC syscalls, plainly and inside a time namespace
+    # in which MONOTONIC, BOOTTIME and REALTIME are far apart (a wrong clock id then leaves the bracket)
+    import os, shutil, subprocess
+    pj = []
+    for mode, release in (("staticpie", False), ("static", True), ("dynpie", False)) if quick else \
+            [(m, r) for m in ("staticpie", "static", "dynpie") for r in (False, True)]:
+        exe = os.path.join(vlib.build_nolibc("probes/clock_probe", "clock_probe" + ("-rel" if release else ""), mode, release), "clock_probe")
+        n = 200_000 if quick else 3_000_000
+        pj.append((mode, release, "plain", dict(argv=[exe, str(n)], timeout=600)))
+        pj.append((mode, release, "timens", dict(argv=["unshare", "--time", "--fork", "--monotonic", "3600", "--boottime", "86400", "--", exe, str(n)], timeout=600)))
+    timens_ok = False
+    if shutil.which("unshare"):
+        t = subprocess.run(["unshare", "--time", "--fork", "--monotonic", "3600", "--boottime", "86400", "--", "cat", "/proc/uptime"],
+                           capture_output=True, text=True)
+        try:
+            timens_ok = t.returncode == 0 and float(t.stdout.split()[0]) > 86000
+        except (ValueError, IndexError):
+            timens_ok = False
+    if not timens_ok:
+        ck.note_inconclusive("time namespaces not usable here: executable clock brackets run without them only")
+        pj = [x for x in pj if x[2] == "plain"]
+    pres = vlib.run_parallel([x[3] for x in pj])
+    for (mode, release, kind, _), r in zip(pj, pres):
+        label = "clock_probe %s/%s %s" % (mode, "release" if release else "debug", kind)
+        if r["rc"] is not None and r["rc"] < 0:
+            ck.violation("C19/clock/executable/probe-crash", dict(label=label, signal=-r["rc"]))
+        elif ck.consume_result(r, label):
+            ck.note_distinct("executable-clock/%s/%s/%s" % (mode, "release" if release else "debug", kind))
     res = vlib.run_parallel(jobs)
     for j, r in zip(jobs, res):
         prof = "debug" if "harness-debug" in j["argv"][0] else "release"
